@@ -123,3 +123,47 @@ func H_C03_cmp() {
 	}
 	vrt.Reach("done")
 }
+
+// H_C03_fp: BIT-PRECISE (binary64) selection and comparison: for all finite doubles, ElMax / ElMin return
+// one of their two operands unchanged (no arithmetic that could round it) and bound both; Gt/Ge/Lt/Le
+// return exactly 1 or 0 according to the IEEE comparison.  The real-number model cannot see a selection
+// implemented by arithmetic blending (b + m*(a-b)), which is exact over the reals and rounds in binary64.
+func H_C03_fp() {
+	op := vrt.SParam("op")
+	n := vrt.Param("n")
+	a, ae := mk("x", []int{n}, vrt.Bool("ta"))
+	b, be := mk("y", []int{n}, false)
+	for k := range ae {
+		vrt.Assume(vrt.And(ae[k] >= -1e300, ae[k] <= 1e300))
+		vrt.Assume(vrt.And(be[k] >= -1e300, be[k] <= 1e300))
+	}
+	y, err := applyBinary(op, a, b)
+	vrt.Assert("same shapes accepted", err == nil)
+	if err != nil {
+		return
+	}
+	f := vrt.Flat(y)
+	vrt.Assert("one result element per operand element", len(f) == n)
+	if len(f) != n {
+		return
+	}
+	for k := range f {
+		switch op {
+		case "ElMax":
+			vrt.Assert("bit-precise: ElMax bounds both operands from above", vrt.And(f[k] >= ae[k], f[k] >= be[k]))
+			vrt.Assert("bit-precise: ElMax returns one of its operands unchanged", vrt.Or(f[k] == ae[k], f[k] == be[k]))
+		case "ElMin":
+			vrt.Assert("bit-precise: ElMin bounds both operands from below", vrt.And(f[k] <= ae[k], f[k] <= be[k]))
+			vrt.Assert("bit-precise: ElMin returns one of its operands unchanged", vrt.Or(f[k] == ae[k], f[k] == be[k]))
+		case "Gt":
+			vrt.Assert("bit-precise: Gt is exactly 1 or 0 by the IEEE comparison", f[k] == vrt.IteF(ae[k] > be[k], 1, 0))
+		case "Ge":
+			vrt.Assert("bit-precise: Ge is exactly 1 or 0 by the IEEE comparison", f[k] == vrt.IteF(ae[k] >= be[k], 1, 0))
+		case "Lt":
+			vrt.Assert("bit-precise: Lt is exactly 1 or 0 by the IEEE comparison", f[k] == vrt.IteF(ae[k] < be[k], 1, 0))
+		case "Le":
+			vrt.Assert("bit-precise: Le is exactly 1 or 0 by the IEEE comparison", f[k] == vrt.IteF(ae[k] <= be[k], 1, 0))
+		}
+	}
+	vrt.Reach("done")
+}
